@@ -178,9 +178,10 @@ func init() {
 	}, oracleNoPanic, oracleHandler)
 	{
 		base := props["C07"]
-		props["C07"] = propRun{rule: base.rule + "; renamed stage: after a call (and a completion) the program assigns Group.Namespace, Option.LongName or Option.ShortName; the old spelling is unknown (error naming it / passed through / one handler call), the new one reaches the option", run: func(c *Ctx) {
+		props["C07"] = propRun{rule: base.rule + "; renamed stage: after a call (and a completion) the program assigns Group.Namespace, Option.LongName or Option.ShortName; the old spelling is unknown (error naming it / passed through / one handler call), the new one reaches the option; command-namespace stage: Command.Namespace assigned by the program prefixes the long names of its subcommands' options and of groups attached to it: the prefixed name reaches the option, the bare name is unknown under each policy", run: func(c *Ctx) {
 			base.run(c)
 			checkC07Renamed(c, budget(c.Tier, 300, 10000))
+			checkC07CommandNamespace(c, budget(c.Tier, 200, 6000))
 		}}
 	}
 	parseProp("C08", caseRule+"emphasis: deep command trees, aliases, name clashes between levels", 2500, 100000, func(p *Profile) {
